@@ -1,15 +1,15 @@
-\* X07 quick: environment (OMP_NUM_THREADS, affinity, SLURM_CPUS_PER_TASK), os.environ writes, set(n <= 0)
+\* X07 quick: environment (OMP_NUM_THREADS, affinity, SLURM_CPUS_PER_TASK), os.environ writes
 SPECIFICATION Spec
 CONSTANTS
   EnvOmp = {0, 3}
   Cores = {1, 2}
   Slurm = {8}
   PutVals = {1}
-  SetVals = {0, 3}
+  SetVals = {}
   NbVals = {}
   Starts = {}
   Hows = {"default"}
-  POps = {"putenv", "import", "set", "launch"}
+  POps = {"putenv", "import", "launch"}
   COps = {"import"}
   NW = 0
   MaxDepth = 3
@@ -30,6 +30,7 @@ PROPERTY StopSticky
 PROPERTY DoneIsFinal
 PROPERTY RaiseStops
 PROPERTY FlagPerProcess
+PROPERTY PbpOneThread
 ACTION_CONSTRAINT EmitTransition
 VIEW View
 CHECK_DEADLOCK FALSE
